@@ -3,6 +3,7 @@ fault enumeration on a fake DBAPI as the bounded complement."""
 import importlib
 import contracts.pool_record  # noqa: F401
 import contracts.finalize_fairy  # noqa: F401  (_finalize_fairy: shared by C24 and C26)
+import contracts.fairy_checkout  # noqa: F401
 import contracts.pool_queue  # noqa: F401  (QueuePool._do_get: the overflow claim is given back when the creator fails with any exception)
 from pyvc.contract import FUNCS
 from vlib.proof import run_proofs
@@ -19,5 +20,5 @@ def run(run, tier, seed, args):
         "assumed externals: pool._invoke_creator returns a new open DBAPI connection or raises with nothing opened; pool._close_connection closes (close attempted counts as closed, exceptions swallowed there); pool._return_conn is counted by a ghost counter",
         "event hooks (dispatch.*) and logging do not touch the ghost state and do not raise; time.time() is an arbitrary integer (no monotonicity is needed by the clauses)",
         "QueuePool._do_get (shared with C25): creator failures of any exception class leave the overflow accounting as it was",
-        "under proof: __init__, __close, __connect, close, invalidate, get_connection, checkin, _checkin_failed, _is_hard_or_soft_invalidated; _finalize_fairy (sync, non-detached: checked in exactly once, invalidated when the reset fails with an Exception); checkout / _ConnectionFairy._checkout (retry loop, pre-ping) and the pool classes are in the bounded complement",
+        "under proof: __init__, __close, __connect, close, invalidate, get_connection, checkin, _checkin_failed, _is_hard_or_soft_invalidated; _finalize_fairy (sync, non-detached: checked in exactly once, invalidated when the reset fails with an Exception), _ConnectionFairy._checkout (first checkout: pre-ping / checkout-event retry loop -- what is handed out is live, is the record's connection, and is never a connection on which a disconnect was detected); _ConnectionRecord.checkout / _ConnectionFairy._checkout (retry loop, pre-ping) and the pool classes are in the bounded complement",
     ]
